@@ -223,11 +223,11 @@ def conic_row(ses, name, cm, blocks, row, label):
         for tag, sysm, viol in systems:
             lab = '%s.g%d%s' % (label, gi, tag)
             done = False
-            cands = [b for b in blocks if b['cones']] + [b for b in blocks if not b['cones']]
+            cands = [b for b in blocks if b['cones'] or b.get('xcones')] + [b for b in blocks if not (b['cones'] or b.get('xcones'))]
             if len(blocks) > 1:
                 cands.append(whole(cm.cp))
             for blk in cands:
-                r = rlt_block(ses, cm.cp, blk, sysm['G'], sysm['H'], [], sysm['vars'], viol, lab, kind,
+                r = rlt_block(ses, cm.cp, blk, sysm['G'], sysm['H'], sysm.get('T', []), sysm['vars'], viol, lab, kind,
                               sample=dict(model=name, row=row['label'], moment_vars=len(sysm['vars']), cones=len(sysm['Q'])),
                               timeout_ms=tmo, Q2=sysm['Q'], full_pairing=True)
                 if r == 'unsat':
